@@ -178,12 +178,14 @@ class C08(Property):
                     # a verbatim genuine datagram (truncation to full length / flip out of range) is not an outsider datagram
                     if outs[i - 1] == "nodg":
                         pass
+                    elif outs[i - 1].startswith("zc~"):
+                        pass       # removed bytes all zero: the parser saw the complete genuine message (finding F11), not a mutation
                     elif prev_op[0] == "U" and self._full_len(ops, outs, prev_op):
                         pass
                     else:
                         return "datagram that cannot verify (%s) left state behind: %s -> %s" % (prev_op[:60], last_dump[:200], cur[:200])
                 last_dump = cur
-            if o[:1] in ("W", "F") and nu.emissions(r):
+            if o[:1] in ("W", "F") and nu.emissions(r.replace("zc~", "")):
                 return "datagram that cannot verify (%s) was answered with %s" % (o[:60], r)
         return None
 
